@@ -146,6 +146,21 @@ def streams(tier, rng, P, only=None, cases=None):
             cs.append(dict(req="compile2 %s %s" % (hx(jp), hx(mml_)), jp=jp, mml=mml_, key="a%d" % i, show="%s  vs  %s" % (jp, mml_)))
             # ... and through the object API (`SakuraCompiler::compile`), which runs the same preprocessor first
             cs.append(dict(req="objseq en 0 %s %s" % (hx(jp), hx(mml_)), jp=jp, mml=mml_, key="ao%d" % i, show="[object API] %s  vs  %s" % (jp, mml_)))
+        # ... and through `compile_to_midi`; the definition may be written with blanks, tabs or a comment between `~` and `{`
+        from ..core import run_oracle, parse_resp
+        pend = []
+        for i in range(60 if big else 14):
+            name = rng.choice(["abc", "riff", "x1", "qq", "Zed"]); value = rng.choice(["o5 l8 cde", "c d", "[2 e]", "l8 g", "o4 c2"])
+            gap = rng.choice(["", " ", "\t", " /* w */ ", "  "])
+            uses = [rng.choice([name, name, "r", "e8"]) for _ in range(rng.randrange(1, 5))]
+            if name not in uses: uses.append(name)
+            pend.append(("~%s{%s}%s=%s{%s} %s" % (gap, name, rng.choice(["", " "]), rng.choice(["", " "]), value, " ".join(uses)), " ".join(value if u == name else u for u in uses)))
+        refs = run_oracle(P, ["compile %s 0 en lib" % hx(m_) for _, m_ in pend], 20.0, tag="c17m")
+        for i, ((jp, mml_), r_) in enumerate(zip(pend, refs)):
+            st_, f_ = parse_resp(r_)
+            if st_ != "ok": continue
+            for entry in ("midi", "lib", "obj"):
+                cs.append(dict(req="compile %s 0 en %s" % (hx(jp), entry), jp=jp, mml=mml_, expect=f_["bin"], key="am%d%s" % (i, entry), show="[%s] %s  vs  %s" % (entry, jp, mml_)))
         for j, (jp, mml_) in enumerate([("~{do}={c}~{re}={d} l4 do re do", "l4 c d c"), ("ドレミ", "cde"), ("~{x1}={[2 e]} x1 c", "[2 e] c"), ("トラック2 ドレ", "TR=2 cd")]):
             cs.append(dict(req="objseq en 0 %s %s" % (hx(jp), hx(mml_)), jp=jp, mml=mml_, key="aof%d" % j, show="[object API] %s  vs  %s" % (jp, mml_)))
         return cs
@@ -176,6 +191,9 @@ def streams(tier, rng, P, only=None, cases=None):
     def midi_judge(c, impl, m):
         st, f = impl
         if st != "ok": return None
+        if "expect" in c:
+            if f.get("bin") != c["expect"]: return ("violation", "a source with word definitions compiles to other MIDI than its transliteration through one of the entry points")
+            return None
         if "bins" in f:
             b = f["bins"].split(",")
             if len(b) != 2 or b[0] != b[1]: return ("violation", "through the object API, Japanese notation / word definitions and the transliteration compile to different MIDI")
@@ -183,5 +201,5 @@ def streams(tier, rng, P, only=None, cases=None):
         if f["bin1"] != f["bin2"]:
             return ("violation", "a word and the word the reference documents it as compile to different MIDI" if c["key"].startswith("syn-") else "Japanese notation and its transliteration compile to different MIDI")
         return None
-    s4 = Stream("midi", mcases, lambda c, st, f: [], midi_judge, lambda c, i, m: i[1].get("bin1") or i[1].get("bins"), "piece vs transliteration", timeout_case=20.0)
+    s4 = Stream("midi", mcases, lambda c, st, f: [], midi_judge, lambda c, i, m: i[1].get("bin1") or i[1].get("bins") or i[1].get("bin"), "piece vs transliteration", timeout_case=20.0)
     return [s for s in (s1, s2, s3, s4) if only in (None, s.name)]
